@@ -13,7 +13,9 @@ are stated here independently, as the property reads them:
     hostname covered by no usable listener has no certificate-bearing server (part of A: `no_owner`);
  C  every port with SSL servers has exactly one `default_server` that rejects the handshake and carries
     no certificate;
- D  for every location that proxies: the Services it actually routes to (upstreams named by proxy_pass /
+ D  (a Service targeted by a BackendTLSPolicy is reached over verified TLS or not at all — also when the policy is
+    ignored because its ancestor status list is full)
+    for every location that proxies: the Services it actually routes to (upstreams named by proxy_pass /
     split_clients, `invalid-backend-ref` excluded) agree on their TLS policy (the policy selected for a
     Service = oldest, then smallest namespace/name, of the BackendTLSPolicies of its namespace targeting
     it); none of them has an invalid selected policy; and if they share a valid policy the location has
@@ -336,7 +338,17 @@ def checkLocation (i : JIn) (fs : List JFile) (sc : List (List Char × List (Lis
       | [] => []
       | t0 :: more =>
         if tls.contains .invalidPolicy then
-          [⟨"C16:service-with-invalid-policy-served", where_⟩]
+          -- a Service whose selected policy is well-formed but IGNORED (ancestor status list full) must fail closed:
+          -- reaching it over plain http is the silent weakening the property forbids
+          let plainScheme : Bool := !(scheme = str "https" || scheme = str "grpcs")
+          let ignoredWellFormed : Bool := svcs.any fun s =>
+            match selected i s.ns s.name with
+            | some b => b.full && (policyTrust i { b with full := false }).isSome
+            | none => false
+          [⟨"C16:service-with-invalid-policy-served", where_⟩] ++
+          (if ignoredWellFormed && plainScheme then
+            [⟨"C16:btp-backend-reached-without-tls", where_ ++ " (its BackendTLSPolicy is ignored: ancestor status list full)"⟩]
+           else [])
         else if more.any (· ≠ t0) then
           if t0 = .plain then
             [⟨"C16:btp-mismatch-undetected-when-first-backend-has-no-policy", where_⟩]
